@@ -30,15 +30,24 @@ def gen_tree(rng, depth, maxdepth, path=()):
     if depth < maxdepth and (depth == 0 or rng.random() < 0.6):
         for name in rng.sample(SUBNAMES, rng.randrange(1, 5)):
             node["subs"][name] = gen_tree(rng, depth + 1, maxdepth, path + (name,))
+    node["dsec"] = {}
+    if node["subs"] and rng.random() < 0.3:
+        # the default config file also carries sections for (some of) the subcommands, without naming one; the option
+        # is one the subcommand's own default config file does not set (their relative order is C04's question)
+        for name in rng.sample(list(node["subs"]), rng.randrange(1, min(3, len(node["subs"])) + 1)):
+            child = node["subs"][name]
+            free = [o for o, _ in child["opts"] if not (child["dcf"] and o in child["dcf"])]
+            if free:
+                node["dsec"][name] = {free[-1]: 950 + len(path)}
     return node
 
 
 def build(node, workdir, top=True, tag="t", use_env=True):
     kw = {}
-    if node["dcf"]:
+    if node["dcf"] or node["dsec"]:
         fn = os.path.join(workdir, f"dcf_{tag}_{'_'.join(node['path']) or 'top'}.yaml")
         with open(fn, "w") as f:
-            yaml.safe_dump(node["dcf"], f)
+            yaml.safe_dump(dict(node["dcf"] or {}, **node["dsec"]), f, sort_keys=False)
         kw["default_config_files"] = [fn]
     if top:
         p = ArgumentParser(exit_on_error=False, prog="app", env_prefix="APP", default_env=use_env, **kw)
@@ -72,11 +81,14 @@ def env_prefix(path):
     return "APP_" + "".join(p.upper() + "__" for p in path)
 
 
-def gen_inputs(rng, node, depth=0):
-    """-> (argv tokens for this level and below, config doc for this level and below, env dict)"""
+def gen_inputs(rng, node, depth=0, dsec=None):
+    """-> (argv tokens for this level and below, config doc for this level and below, env dict)
+    dsec: what the parent's default config file gives for this subcommand"""
     argv, doc, env = [], {}, {}
     for name, default in node["opts"]:
         r = rng.random()
+        if dsec and name in dsec and 0.45 <= r < 0.55:
+            r = 0.3  # an environment variable against a parent's default config section: C04's question (known finding there)
         if r < 0.25:
             argv.append((name, 5000 + rng.randrange(100)))
         elif r < 0.45:
@@ -120,7 +132,7 @@ def gen_inputs(rng, node, depth=0):
         sub_argv = []
         for name in names:
             if name in wanted:
-                a, d, e = gen_inputs(rng, node["subs"][name], depth + 1)
+                a, d, e = gen_inputs(rng, node["subs"][name], depth + 1, node["dsec"].get(name))
                 if name == sel:
                     sub_argv = [("__sub__", name)] + a
                     if d and rng.random() < 0.7:
@@ -159,13 +171,15 @@ def split_levels(argv_tokens):
     return levels, sels
 
 
-def expect(node, levels, sels, doc, env, use_env=True):
+def expect(node, levels, sels, doc, env, use_env=True, dsec=None):
     res = {}
     here = dict(levels[0]) if levels else {}
     for name, default in node["opts"]:
         v = default
         if node["dcf"] and name in node["dcf"]:
             v = node["dcf"][name]
+        if dsec and name in dsec:
+            v = dsec[name]
         ev = env.get(env_prefix(node["path"]) + name.upper())
         if use_env and ev is not None:
             v = int(ev)
@@ -184,7 +198,7 @@ def expect(node, levels, sels, doc, env, use_env=True):
         elif use_env and env.get(env_prefix(node["path"]) + "SUBCOMMAND") in node["subs"]:
             choice = env[env_prefix(node["path"]) + "SUBCOMMAND"]
         else:
-            with_settings = [s for s in node["subs"] if isinstance(doc.get(s), dict)]
+            with_settings = [s for s in node["subs"] if isinstance(doc.get(s), dict) or s in node["dsec"]]
             if with_settings:
                 choice = with_settings[0]
         if choice is None:
@@ -193,7 +207,7 @@ def expect(node, levels, sels, doc, env, use_env=True):
             res["subcommand"] = None
             return res
         res["subcommand"] = choice
-        sub = expect(node["subs"][choice], levels[1:] if sels else [[]], sels[1:], doc.get(choice, {}), env, use_env)
+        sub = expect(node["subs"][choice], levels[1:] if sels else [[]], sels[1:], doc.get(choice, {}), env, use_env, node["dsec"].get(choice))
         if sub is FAIL:
             return FAIL
         res[choice] = sub
@@ -219,9 +233,9 @@ def rule_used(node, sels, doc, env):
         return "config-named"
     if env.get(env_prefix(node["path"]) + "SUBCOMMAND"):
         return "env-named"
-    if isinstance(doc, dict) and any(isinstance(doc.get(s), dict) for s in node["subs"]):
-        n = sum(isinstance(doc.get(s), dict) for s in node["subs"])
-        return "first-with-settings" + ("-of-several" if n > 1 else "")
+    if (isinstance(doc, dict) and any(isinstance(doc.get(s), dict) for s in node["subs"])) or node["dsec"]:
+        n = sum((isinstance(doc, dict) and isinstance(doc.get(s), dict)) or s in node["dsec"] for s in node["subs"])
+        return "first-with-settings" + ("-of-several" if n > 1 else "") + ("+default-config-sections" if node["dsec"] else "")
     return "undeterminable-" + ("required" if node["required"] else "optional")
 
 
@@ -289,6 +303,8 @@ def case(ctx, i, rng):
     ctx.evaluation(("c17", maxdepth, channel, rule, short(tree, 400), short(doc_used, 300), tuple(sels)))
     ctx.count("mon.tree_comparisons")
     ctx.count(f"st.rule.{rule}")
+    if _has_dsec(tree, sels, exp):
+        ctx.count("st.default_config_sections_for_subcommands")
     ctx.count(f"st.depth.{maxdepth}")
     ctx.count(f"st.channel.{channel}")
     w = dict(default_env=use_env, channel=channel, tree=short(_tree_summary(tree), 900), argv=render_argv(levels, sels, []), config=doc_used, env=env, rule=rule)
@@ -312,6 +328,15 @@ def case(ctx, i, rng):
         ctx.sample(dict(w, result=got))
 
 
+def _has_dsec(node, sels, exp):
+    """does the chosen path pass a level whose default config file carries subcommand sections?"""
+    while node["subs"] and isinstance(exp, dict) and exp.get("subcommand"):
+        if node["dsec"]:
+            return True
+        node, exp = node["subs"][exp["subcommand"]], exp[exp["subcommand"]]
+    return False
+
+
 def chan_family(ch):
     return "argv" if ch == "argv" else ("object" if ch in ("object", "string") else "argv+cfg")
 
@@ -324,7 +349,7 @@ def _cfg_dests(node, prefix=""):
 
 
 def _tree_summary(node):
-    return dict(opts=node["opts"], required=node["required"], dcf=node["dcf"], subs={k: _tree_summary(v) for k, v in node["subs"].items()})
+    return dict(opts=node["opts"], required=node["required"], dcf=node["dcf"], dsec=node["dsec"], subs={k: _tree_summary(v) for k, v in node["subs"].items()})
 
 
 def run_shard(ctx):
